@@ -68,6 +68,7 @@ type Machine struct {
 	pdom    map[*ssa.Function]map[*ssa.BasicBlock]*ssa.BasicBlock
 	noMerge bool
 	mergeLoops bool
+	deadline time.Time
 	extern  map[string]externFn
 	varSeq  map[string]int
 	now     time.Time
@@ -225,6 +226,12 @@ func (m *Machine) call(fnv value, args []value, site ssa.Instruction) value {
 
 func (m *Machine) callFn(fn *ssa.Function, args []value, env []value, site ssa.Instruction) value {
 	name := fn.String()
+	if name == "github.com/6tail/lunar-go/calendar.NewLunarYear" {
+		// the year table is astronomy: always computed for a concrete year
+		if t, ok := args[0].(*Term); ok {
+			args[0] = m.concretize(t, fn.Pos(), "lunar year passed to NewLunarYear")
+		}
+	}
 	if ext, ok := m.lookupExtern(fn); ok {
 		return ext(m, args, site)
 	}
